@@ -419,7 +419,7 @@ func (g *genState) genMutating(kind string, file string) Op {
 		}
 	}
 	if r.Chance(1, 3) {
-		op.ArgForm = r.Intn(64) // another spelling of the same command line
+		op.ArgForm = r.Intn(256) // another spelling of the same command line
 	}
 	op.renderArgv()
 	return op
